@@ -27,19 +27,15 @@ def _label(rng, via):
     cat = {"seqid": rng.choice(SEQIDS), "biotype": rng.choice(BIOTYPES), "name": rng.choice(NAMES), "strand": rng.choice(STRANDS), "attr": rng.choice(ATTRS)}
     n = rng.choice((1, 1, 2))
     if via == "user":
-        pts = sorted(rng.randint(0, MAXC) for _ in range(2 * n))
-        spans = [[pts[i], pts[i + 1]] for i in range(0, len(pts), 2)]
-        if rng.random() < 0.3:  # the caller may pass spans in any order / orientation
-            spans = [[b, a] for a, b in reversed(spans)]
+        # spans are drawn independently: they may be disjoint, abut, overlap, nest or coincide
+        spans = [sorted((rng.randint(0, MAXC), rng.randint(0, MAXC))) for _ in range(n)]
+        if rng.random() < 0.5:
+            spans.sort()
+        if rng.random() < 0.3:  # the caller may pass spans in any orientation
+            spans = [[b, a] for a, b in spans]
         return "AddFeature", dict(cat, via="user", spans=spans)
-    # a file feature: 1-based closed first..last positions, one pair per line / join() segment
-    while True:
-        pts = sorted(rng.randint(1, MAXC) for _ in range(2 * n))
-        coords = [[pts[i], pts[i + 1]] for i in range(0, len(pts), 2)]
-        if n == 1 or coords[0][1] < coords[1][0]:
-            break
-    if rng.random() < 0.3:
-        coords.reverse()
+    # a file feature: 1-based closed first..last positions, one pair per line / join() segment, any order
+    coords = [sorted((rng.randint(1, MAXC), rng.randint(1, MAXC))) for _ in range(n)]
     return "AddRow", dict(cat, coords=coords)
 
 
